@@ -165,12 +165,15 @@ inductive Acc where
 def intAcc (x : Num) : Acc :=
   if x.isInt || x.isZero then .exact else if x.signbit then .above else .below
 
-/-- `IntFunc`: identity on integers and on infinities; otherwise `bf.Int(nil)` into a
-fresh `big.Float` (`bf.Int(nil)` would be a nil `*big.Int` only for ±Inf). -/
+/-- `IntFunc` (as of /repo f991adf): the error documented for `Int` on ANY infinity
+(`bf.IsInf()`, not a comparison with the two package-level values); identity on
+integers; otherwise `bf.Int(nil)` into a fresh `big.Float` (`bf.Int(nil)` would be a
+nil `*big.Int` only for ±Inf, which no longer gets there). -/
 def intImpl (args : List Value) : Res Value := do
   let a ← arg args 0
   let bf ← asBigFloat a
-  if bf.isInt || bf.isInf then pure a
+  if bf.isInf then .err "can't truncate infinity to an integer"
+  else if bf.isInt then pure a
   else match bf.truncInt with
     | none => .panic "nil pointer dereference"
     | some i => pure (Value.numVal (Num.setIntP i 0))
